@@ -27,6 +27,7 @@ COQ_CHECK = "M_Orch.check_case"
 OBLIGATIONS = ["orch_finishes_iff_all_ended", "orch_reports_last_values",
                "orch_cost_accounts_assignment"]
 N_QUICK, N_THOROUGH = 160, 1600
+N_SEARCH = 320   # size of the extra oracle search after a broken obligation/correspondence (real threaded runs are slow)
 PARALLEL = 8
 SHARD = 120
 RUN_TIMEOUT = 90          # orchestrator.run(timeout=...): generous, a clean run takes ~1.2 s
